@@ -262,6 +262,77 @@ def run(chk):
                            '%s:%d' % (fi.module.relpath, s_.lineno), key='C09-K|%s|%s|%s' % (fq, t.func.qualname, p_))
     chk.floor('index hand-offs between positional APIs', nk, 3)
 
+    # ---- N: the unindexed forms (e.name = v, del e.name, proxy.attr) address repetition 0
+    chk.rule('C09-N', 'the unindexed by-name forms all address the same repetition, the first: Element.__setattr__ hands '
+                      'index 0 to ElementList.set, Element.__delattr__ hands index 0 to remove_by_name (explicitly or through '
+                      'the default), and ElementProxy delegates attribute access to self.list[0]')
+    from .. import consteval as _ce
+    nn = 0
+
+    def effective(call, callee, pname):
+        b = pat.call_args_by_param(call, callee.node)
+        if pname in b:
+            return b[pname]
+        a = callee.node.args
+        pos = [x.arg for x in a.args]
+        if pname in pos:
+            k = pos.index(pname) - (len(pos) - len(a.defaults))
+            if k >= 0:
+                return a.defaults[k]
+        return None
+
+    for caller_q, attr, callee_q, pname in (('core.Element.__setattr__', 'set', 'core.ElementList.set', 'index'),
+                                            ('core.Element.__delattr__', 'remove_by_name',
+                                             'core.ElementList.remove_by_name', 'index'),
+                                            ('core.ElementList.__delitem__', None, None, None)):
+        if attr is None:
+            continue
+        caller, callee = ix.func(caller_q), ix.func(callee_q)
+        if caller is None or callee is None:
+            raise AnalysisError('%s / %s not found' % (caller_q, callee_q))
+        sites = [n for n in _calls(caller, attr) if 'children' in norm(n.func.value)]
+        chk.floor('%s -> %s call sites' % (caller_q, attr), len(sites), 1)
+        for call in sites:
+            e = effective(call, callee, pname)
+            val = pat.const_of(e)[1] if e is not None else None
+            nn += 1
+            ok = e is not None and val == 0 and type(val) is int
+            chk.ob('C09-N', '%s addresses repetition 0 of the name' % caller_q, ok,
+                   '' if ok else '`%s` reaches %s with %s = %s: `e.<name> = v` / `del e.<name>` and the reads through the proxy '
+                   '(self.list[0]) no longer address the same repetition' % (
+                       norm(call), callee_q, pname, norm(e) if e is not None else '<missing>'),
+                   '%s:%d' % (caller.module.relpath, call.lineno), key='C09-N|%s' % caller_q)
+    # the indexed forms hand their own position on: a defaulted index addresses the last repetition instead
+    for caller_q, callee_q, pname in (('core.ElementList.__setitem__', 'core.ElementList.set', 'index'),
+                                      ('core.ElementProxy.__setitem__', 'core.ElementList.set', 'index')):
+        caller, callee = ix.func(caller_q), ix.func(callee_q)
+        if caller is None or callee is None:
+            raise AnalysisError('%s / %s not found' % (caller_q, callee_q))
+        sites = _calls(caller, 'set')
+        chk.floor('%s -> set call sites' % caller_q, len(sites), 1)
+        for call in sites:
+            nn += 1
+            b = pat.call_args_by_param(call, callee.node)
+            ok = pname in b and not pat.const_of(b[pname])[0]
+            chk.ob('C09-N', '%s hands the addressed position to set()' % caller_q, ok,
+                   '' if ok else '`%s` leaves `%s` to its default or a constant: the replacement addresses a fixed repetition, '
+                   'not the one indexed' % (norm(call), pname), '%s:%d' % (caller.module.relpath, call.lineno),
+                   key='C09-N|%s' % caller_q)
+    for m_ in ('__getattr__', '__setattr__', '__delattr__'):
+        pf = ix.func('core.ElementProxy.%s' % m_)
+        if pf is None:
+            raise AnalysisError('ElementProxy.%s not found' % m_)
+        subs_ = [n for n in own_nodes(pf.node) if isinstance(n, ast.Subscript) and
+                 norm(n.value) in ('self.list', 'self.traversal_list')]
+        chk.floor('ElementProxy.%s delegations' % m_, len(subs_), 1)
+        for n in subs_:
+            nn += 1
+            ok = pat.const_of(n.slice) == (True, 0)
+            chk.ob('C09-N', 'ElementProxy.%s delegates to the first repetition' % m_, ok,
+                   '' if ok else '`%s` is not the first repetition' % norm(n), '%s:%d' % (pf.module.relpath, n.lineno),
+                   key='C09-N|ElementProxy.%s|%s' % (m_, norm(n.value)))
+    chk.floor('by-name forms examined (C09-N)', nn, 9)
+
     from . import codelemmas
     codelemmas.open_ended(chk, c, 'C09-Z')
 
